@@ -233,6 +233,9 @@ def handleRt (toks impl : List String) : String :=
         let v13 := c13Verdict db encB gz
         let v01 := c01Verdict inDomain db decS enc2S gz cp
         -- the property the run serves reports its own clauses first
+        -- every document an encoder writes: also the second one
+        let again := (field impl "again").getD "same"
+        let v13 := v13.orElse fun _ => if again != "same" then some s!"VIOL clause=lt.second_document got={again}" else none
         let first := if pflag == "P=C01" then v01.orElse (fun _ => v13) else v13.orElse (fun _ => v01)
         match first with
         | some v => v
